@@ -26,6 +26,7 @@ type Ctx struct {
 	REval, RCompile, RReg, RStr, RInit *Reach
 	reachCache                         map[string]*Reach
 	callers                            map[*ssa.Function][]ssa.CallInstruction
+	fnKeySet                           map[string]bool
 	nonStatic                          map[*ssa.Function]bool
 	bmem                               *bndMem
 	rtGlobals                          map[*ssa.Global]types.Type
